@@ -131,6 +131,9 @@ type retPoint struct {
 	vals  []*SV
 	st    *State
 	pos   token.Pos
+	// nAssume: number of assumptions recorded when this return was reached (blocks are visited in reverse post-order, so
+	// everything recorded later belongs to paths that do not lead here)
+	nAssume int
 }
 
 type frameCtx struct {
@@ -226,7 +229,7 @@ func (u *Unit) runBody(fn *ssa.Function, args []*SV, freeVars []*SV, st0 *State,
 				for _, r := range t.Results {
 					vals = append(vals, u.val(fc, r))
 				}
-				rets = append(rets, retPoint{pc, vals, st, t.Pos()})
+				rets = append(rets, retPoint{pc, vals, st, t.Pos(), len(u.assumptions)})
 				terminated = true
 			case *ssa.Panic:
 				if !spec {
